@@ -64,7 +64,7 @@ def site_tag(fn, bidx):
         for a_ in M._split_top(blk.args):
             mm = re.match(r"^(?:move |copy )?(_\d+)$", a_.strip())
             names.append(_debug_name(fn, mm.group(1)) if mm else "")
-    return "\u27e8bb%d%s\u27e9" % (bidx, (":" + ",".join(names)) if any(names) else "")
+    return "\u27e8bb%d%s\u27e9" % (bidx, (":" + ";".join(names)) if any(names) else "")  # no commas: the tag sits inside comma-separated operand lists
 
 
 def _debug_name(fn, loc, depth=0):
